@@ -271,7 +271,14 @@ impl ConsensusThread {
                 }
             }
             // route golden tickets to peers
-            if gt_result.is_some() && !gt_propagated {
+            // (a ticket that did not solve the tip was dropped by bundle_block and is
+            // neither propagated nor looked up again)
+            if gt_result.is_some()
+                && !gt_propagated
+                && mempool
+                    .golden_tickets
+                    .contains_key(&blockchain.get_latest_block_hash())
+            {
                 self.network
                     .propagate_transaction(gt_result.as_ref().unwrap())
                     .await;
@@ -279,11 +286,12 @@ impl ConsensusThread {
                     "propagating gt : {:?} to peers",
                     hash(&gt_result.unwrap().serialize_for_net()).to_hex()
                 );
-                let (_, propagated) = mempool
+                if let Some((_, propagated)) = mempool
                     .golden_tickets
                     .get_mut(&blockchain.get_latest_block_hash())
-                    .unwrap();
-                *propagated = true;
+                {
+                    *propagated = true;
+                }
             }
             return true;
         }
